@@ -810,6 +810,16 @@ func absentItem(v *Val, r *rand.Rand) PItem {
 		case tSTR:
 			return PItem{K: "str", B: B("zz-absent")}
 		case tI8, tI16, tI32, tI64:
+			// a Go int outside the key type's range that is congruent to a present key modulo the key width
+			if w := fixedSize(v.KT); w < 8 && len(v.P) > 0 && r.Intn(2) == 0 {
+				k := fromBE8(signExt8(v.P[r.Intn(len(v.P))].K.B))
+				if r.Intn(2) == 0 {
+					k += int64(1) << (8 * uint(w))
+				} else {
+					k -= int64(1) << (8 * uint(w))
+				}
+				return PItem{K: "int", B: be8(k)}
+			}
 			for _, k := range []int64{77, -77, 5, 0} {
 				kb := be8(k)
 				ok := true
